@@ -10,10 +10,10 @@ import (
 	"verif/lib/run"
 )
 
-// Exhaustive small scope: every sequence of operations up to a depth over
-//   store(key in 3, block index in live blocks (<=3), offset in 2)  [18]
-//   release oldest block, push block                               [2]
-// explored breadth-first from the empty table. A state is the table content
+// Exhaustive small scope: every sequence of operations over
+//   store(key in 3 or 4, block index in live blocks (<=3), offset in 2)
+//   release oldest block, push block
+// explored breadth-first from the empty table until no new state appears. A state is the table content
 // as the real record array reports it (block numbers relative to the oldest
 // live block) plus the number of live blocks; a state reached before is not
 // expanded again. Every expansion rebuilds the real index and replays the
@@ -52,10 +52,7 @@ func exConfigs(thorough bool) []exConfig {
 	maxSize := envInt("C06_MAXSIZE", 4)
 	keySet := []int{3}
 	if thorough {
-		keySet = []int{3, envInt("C06_KEYS", 3)}
-		if keySet[1] == 3 {
-			keySet = keySet[:1]
-		}
+		keySet = []int{3, 4}
 	}
 	for _, nk := range keySet {
 		for size := 1; size <= maxSize; size++ {
@@ -131,11 +128,9 @@ func exOpName(op int) string {
 
 func exhaustiveEngine(w *run.Worker, mr *metricsReader) {
 	cfgs := exConfigs(w.Thorough())
-	depth := 4
-	if w.Thorough() {
-		depth = 7
-	}
-	depth = envInt("C06_DEPTH", depth)
+	// Breadth-first until no new state appears (observed: 10 levels); the
+	// bound only guards against an unexpectedly infinite state space.
+	depth := envInt("C06_DEPTH", 40)
 	mine := 0
 	for g := range cfgs {
 		if g%w.Workers == w.Index {
@@ -143,7 +138,7 @@ func exhaustiveEngine(w *run.Worker, mr *metricsReader) {
 		}
 	}
 	st := &stats{m: map[string]int64{}}
-	complete := true
+	complete, closedAll := true, true
 	allKeys := make([]local.Key, exMaxKeys)
 	for i := range allKeys {
 		allKeys[i] = local.NewKeyFromString(fmt.Sprintf("x%d", i))
@@ -179,7 +174,7 @@ func exhaustiveEngine(w *run.Worker, mr *metricsReader) {
 			init = r.Uint64()
 		}
 		cfg := &config{size: ec.size, getA: ec.getA, putA: ec.putA, hashInit: init, device: ec.device, first: 0, count: 1, epoch: 1, keys: keys}
-		c.Desc("exhaustive depth=%d %v", depth, cfg)
+		c.Desc("exhaustive (depth bound %d) %v", depth, cfg)
 
 		nodes := []exNode{{parent: -1, op: -1, count: 1}}
 		visited := map[string]struct{}{}
@@ -241,6 +236,9 @@ func exhaustiveEngine(w *run.Worker, mr *metricsReader) {
 				break
 			}
 		}
+		if len(frontier) != 0 {
+			closedAll = false
+		}
 		st.add("exhaustive_transitions", transitions)
 		st.add("exhaustive_states", int64(len(visited)))
 		st.add("exhaustive_configs", 1)
@@ -255,7 +253,7 @@ func exhaustiveEngine(w *run.Worker, mr *metricsReader) {
 		}
 	})
 	flush(w, st)
-	w.Exhaustive(fmt.Sprintf("small-scope depth %d (3 keys x 3 blocks x 2 offsets, tables 1-4)", depth), complete && mine >= 0)
+	w.Exhaustive("small scope to closure (3-4 keys x <=3 live blocks x 2 offsets, tables of 1-4 records): every reachable table content expanded by every operation", complete && closedAll)
 }
 
 var _ = run.Spec{}
